@@ -172,7 +172,7 @@ def _triple(draw):
         T = float(draw(st.sampled_from([1, 256, 1023, 1024, 262144, 10 ** 8])))
     M = draw(st.one_of(st.floats(0.2, 12), st.sampled_from([0.2, 4.5, 12.0, 1.0])))
     W = draw(st.one_of(st.just(0.0), st.floats(0, 1.5).map(lambda f: f * M), st.just(1.5 * M),
-                       st.floats(0, 1e-3), st.just(0.5)))
+                       st.floats(0, 1e-3), st.just(0.5), st.floats(-8.0, -2.0).map(lambda e: 10.0 ** e)))   # small W, log-uniform
     return dict(arm='triple', T=T, M=M, W=W, axis=draw(st.integers(0, 19)) == 0)
 
 
